@@ -57,6 +57,12 @@ type Contract struct {
 	Fresh    []string
 	Terminates bool
 	lockMode bool
+	Splits   []SplitSpec
+}
+
+type SplitSpec struct {
+	Expr   Clause
+	Values []Clause
 }
 
 type Pred struct {
@@ -85,7 +91,7 @@ var clauseKeywords = map[string]bool{
 	"func": true, "requires": true, "ensures": true, "modifies": true, "let": true, "loop": true, "invariant": true,
 	"decreases": true, "unroll": true, "pred": true, "trusted": true, "inline": true, "pure": true, "props": true,
 	"iface": true, "global": true, "allocates": true, "effects": true, "at": true, "assert": true, "nonil": true,
-	"guarded_by": true, "fresh": true, "terminates": true,
+	"guarded_by": true, "fresh": true, "terminates": true, "split": true,
 }
 
 func parseContractFile(path, pkgPath string) (*ContractFile, error) {
@@ -347,6 +353,29 @@ func parseContractFile(path, pkgPath string) (*ContractFile, error) {
 				}
 			case "fresh":
 				cur.Fresh = append(cur.Fresh, strings.Fields(l.rest)...)
+			case "split":
+				// split <expr> in v1, v2, ...
+				i := strings.LastIndex(l.rest, " in ")
+				if i < 0 {
+					return nil, fmt.Errorf("%s: split without 'in'", where)
+				}
+				l2 := l
+				l2.rest = strings.TrimSpace(l.rest[:i])
+				ec, err := mk(l2, false)
+				if err != nil {
+					return nil, err
+				}
+				sp := SplitSpec{Expr: ec}
+				for _, v := range splitTop(l.rest[i+4:], ',') {
+					l3 := l
+					l3.rest = strings.TrimSpace(v)
+					vc, err := mk(l3, false)
+					if err != nil {
+						return nil, err
+					}
+					sp.Values = append(sp.Values, vc)
+				}
+				cur.Splits = append(cur.Splits, sp)
 			}
 		}
 	}
